@@ -310,6 +310,32 @@ func recordPath(seed int64, n int, w *bufio.Writer, a *Acc) {
 				nontriv++
 			}
 			emit(w, map[string]interface{}{"op": "upd", "key": key, "val": tagged.FromGo(val), "path": names(ks), "conds": cs, "c": cnt, "post": tagged.FromGo(mv)})
+			// now and then a two-call sequence: a LIST of records stored under the key at every addressed node (one Go slice
+			// in several places), then one of those nodes updated through a sub-key that selects a member of the list
+			if g.r.Intn(4) == 0 && events+2 < n {
+				g.fresh += 2
+				t1, t2 := "L"+strconv.Itoa(g.fresh-1), "L"+strconv.Itoa(g.fresh)
+				lv := []interface{}{map[string]interface{}{"s": t1}, map[string]interface{}{"s": t2}}
+				cnt, err := mv.UpdateValuesForPath(map[string]interface{}{key: lv}, pathString(ks))
+				if err != nil {
+					panic(err)
+				}
+				events++
+				emit(w, map[string]interface{}{"op": "upd", "key": key, "val": tagged.FromGo(lv), "path": names(ks), "conds": []cond{}, "c": cnt, "post": tagged.FromGo(mv)})
+				if ps := mv.PathsForKey(key); cnt > 1 && len(ps) > 0 {
+					sort.Strings(ps)
+					p2 := strings.Split(ps[g.r.Intn(len(ps))], ".")
+					g.fresh++
+					v2 := "N" + strconv.Itoa(g.fresh)
+					c2 := []cond{{K: "s", Kind: "s", V: t1}}
+					cnt2, err2 := mv.UpdateValuesForPath(map[string]interface{}{key: v2}, strings.Join(p2, "."), condStrs(c2, ":")...)
+					if err2 != nil {
+						panic(err2)
+					}
+					events++
+					emit(w, map[string]interface{}{"op": "upd", "key": key, "val": tagged.FromGo(v2), "path": p2, "conds": c2, "c": cnt2, "post": tagged.FromGo(mv)})
+				}
+			}
 		case 8:
 			ks := g.plainMapPath(m, 4)
 			g.fresh++
